@@ -84,7 +84,8 @@ def loop (cf : Conf) (now : Nat) (fault : Option Fault) : Nat → Bytes → RunS
       let (res, evs, st') := (cf.orca cmd).runSt now fault st
       let (b, rendered) := renderPrefix cf.proto evs
       let out' := { out with bytes := out.bytes ++ b, events := out.events ++ evs }
-      if !rendered then ({ out' with ending := .closed }, st')       -- responder panic: recovered, abort
+      if isCrash res then ({ out' with ending := .crashed }, st')    -- an unrecovered goroutine panic: the process is gone
+      else if !rendered then ({ out' with ending := .closed }, st')  -- responder panic: recovered, abort
       else
       match cmd with
       | .quit _ _ => ({ out' with ending := .closed }, st')
